@@ -202,7 +202,9 @@ func c16Oracle(c corr.Case, impl []string) (string, int) {
 }
 
 func c16Tree(r *corr.Rand) []string {
-	names := []string{"a", "ab", "b", "c1", "x.go", "y.txt", "zz", "B"}
+	// names include proper prefixes of each other continued by bytes below and above the separator
+	// ('-', '.', ' ', '!' < '/' < '0', 'b'): the order of joined paths differs from the order of names
+	names := []string{"a", "ab", "b", "c1", "x.go", "y.txt", "zz", "B", "a-b", "a.d", "a b", "a!", "a0"}
 	var items []string
 	seen := map[string]bool{}
 	var gen func(dir string, depth int)
@@ -293,6 +295,18 @@ func c16Exhaustive(tier string) []corr.Case {
 		}
 		l := []string{"case " + st, "tree " + strings.Join(items, " ")}
 		for _, p := range c16Patterns {
+			l = append(l, "glob "+h(p))
+		}
+		cases = append(cases, corr.Case{Lines: l})
+		// sibling directories whose names are prefixes of each other: matches come directory by directory
+		// in name order, which is not the string order of the joined paths
+		var pre []string
+		for _, d := range []string{"a", "a-b", "a.d", "a b", "a0", "ab"} {
+			pre = append(pre, "d:"+h("/r/"+d), "f:"+h("/r/"+d+"/x.go"), "d:"+h("/r/"+d+"/a"), "f:"+h("/r/"+d+"/a/x.go"), "d:"+h("/r/"+d+"/a-b"), "f:"+h("/r/"+d+"/a-b/x.go"))
+		}
+		sort.Strings(pre)
+		l = []string{"case " + st, "tree d:" + h("/r") + " " + strings.Join(pre, " ")}
+		for _, p := range []string{"/r/*/x.go", "/r/a*/x.go", "/r/*/*/x.go", "/r/*/*", "/r/*", "/r/a?b/*", "/r/*/a*/x.go", "/*/*/x.go"} {
 			l = append(l, "glob "+h(p))
 		}
 		cases = append(cases, corr.Case{Lines: l})
